@@ -31,14 +31,15 @@ theorem canonicalize_name_eq_model (s : Str) (validate : Bool) :
   have h2 : Gen.NameTables.canonStructureOk = true := names_patterns_supported.2.2
   simp only [h1, h2, rx_test_str, show ofString "-" = [45] from rfl, sub_class_plus_dash, ok_bind, str_lower_full, pure_ok,
     truthy_bool, Names.canonicalizeName, Names.validName, Names.canon]
-  cases validate <;> by_cases hacc : Rx.accepts Gen.NameValidRx.ranges Gen.NameValidRx.rx s = true <;> simp [hacc]
+  cases validate <;> by_cases hacc : Rx.accepts Gen.NameValidRx.ranges Gen.NameValidRx.rx s = true <;>
+    simp [hacc, is_none, is_not_none]
 
 /-- `is_normalized_name(name)` for every string -/
 theorem is_normalized_name_eq_model (s : Str) :
     Gen.PySrc.is_normalized_name (.str s) = .ok (.bool (Names.isNormalized s)) := by
   unfold Gen.PySrc.is_normalized_name
   have h1 : Gen.NormalizedRx.supported = true := names_patterns_supported.2.1
-  simp only [h1, rx_test_str, ok_bind, pure_ok, Names.isNormalized, is_not_none]
-  cases Rx.accepts Gen.NormalizedRx.ranges Gen.NormalizedRx.rx s <;> rfl
+  simp only [h1, rx_test_str, ok_bind, pure_ok, Names.isNormalized, is_not_none, is_none]
+  cases Rx.accepts Gen.NormalizedRx.ranges Gen.NormalizedRx.rx s <;> simp
 
 end Src
